@@ -246,8 +246,23 @@ func cmdCheck(args []string) int {
 	if *tier == "thorough" {
 		timeout = 60
 	}
-	discharge(eng, allObls, dischargeOpts{outDir: outDir, timeout: timeout, jobs: 16, allSolvers: *tier == "thorough", seed: seed})
+	knownFail := map[string]bool{}
+	for i := range known {
+		if known[i].Property == *prop && known[i].Status == "known" {
+			knownFail[known[i].Obligation] = true
+		}
+	}
+	discharge(eng, allObls, dischargeOpts{outDir: outDir, timeout: timeout, jobs: 16, allSolvers: *tier == "thorough", seed: seed, knownFail: knownFail})
 
+	crossInfo := map[string]interface{}{}
+	if *tier == "thorough" {
+		agreed, undecided, dis := crossCheck(allObls, 10)
+		crossInfo = map[string]interface{}{"second_solver_agrees": agreed, "second_solver_undecided": undecided, "disagreements": len(dis),
+			"note": "thorough tier: every obligation proved by one solver was also put to the other installed solvers (10 s each)"}
+		for _, o := range dis {
+			o.Status = "solver-disagreement"
+		}
+	}
 	// engine errors
 	for _, c := range ctxs {
 		for _, e := range c.errs {
@@ -460,7 +475,7 @@ func cmdCheck(args []string) int {
 		}
 	}
 	extra := map[string]interface{}{
-		"slowest_obligations": slow, "solver_timeout_seconds": timeout,
+		"slowest_obligations": slow, "solver_timeout_seconds": timeout, "cross_check": crossInfo,
 		"functions_under_contract": functions, "obligations_by_backend": bySolver, "solver_seconds": solverSecs,
 		"load_seconds": loadSecs, "other_properties_failing": otherFailing, "known_findings_hit": knownHit,
 		"all_obligations": len(allObls), "audited_dead_paths": deadNoted, "engine": "govc (go/ssa naive form -> SMT-LIB; z3-new 5.1, z3 4.8.12, cvc5 1.0)",
